@@ -49,6 +49,7 @@ type ItemResult struct {
 	SampleObl    string
 	IfConverted  int
 	UFCongruence int
+	Relaxed      int // obligations discharged in the real rounding-error model
 	WallS        float64
 }
 
@@ -491,7 +492,21 @@ func (ex *Exec) oblige(st *State, cond *Term, kind, label, knownID string) {
 	if ex.spec != nil {
 		panic(specAbort{})
 	}
+	fp := hasFP(cond, map[*Term]bool{})
+	if fp {
+		ex.sol.skipFallback = true
+	}
 	res, vals := ex.modelFor(st, ex.ctx.Not(cond))
+	ex.sol.skipFallback = false
+	if fp && res != "sat" && res != "unsat" {
+		// bit-precise query timed out: try the real-arithmetic rounding-error model (a proof under that model only)
+		if relaxedUnsat(ex.ctx, st.pc, cond) {
+			res = "unsat"
+			ex.res.Relaxed++
+		} else {
+			res, vals = ex.modelFor(st, ex.ctx.Not(cond))
+		}
+	}
 	switch res {
 	case "unsat":
 		ex.res.Discharged++
